@@ -59,7 +59,7 @@ bool Memory::in_use(uint32_t address)
 
   while (page != nullptr)
   {
-    if (address >= page->address && address < page->address + PAGE_SIZE)
+    if (address >= page->address && address < (uint64_t)page->address + PAGE_SIZE)
     {
       return true;
     }
@@ -76,7 +76,7 @@ uint32_t Memory::get_page_address_min(uint32_t address)
 
   while (page != nullptr)
   {
-    if (address >= page->address && address < page->address + PAGE_SIZE)
+    if (address >= page->address && address < (uint64_t)page->address + PAGE_SIZE)
     {
       return page->address + page->offset_min;
     }
@@ -95,7 +95,7 @@ uint32_t Memory::get_page_address_max(uint32_t address)
 
   while (page != nullptr)
   {
-    if (address >= page->address && address < page->address + PAGE_SIZE)
+    if (address >= page->address && address < (uint64_t)page->address + PAGE_SIZE)
     {
       return page->address + page->offset_max;
     }
@@ -114,7 +114,7 @@ uint8_t Memory::read8(uint32_t address)
 
   while (page != nullptr)
   {
-    if (address >= page->address && address < page->address + PAGE_SIZE)
+    if (address >= page->address && address < (uint64_t)page->address + PAGE_SIZE)
     {
       return page->bin[address-page->address];
     }
@@ -224,7 +224,7 @@ int Memory::read_debug(uint32_t address)
 
   while (page != nullptr)
   {
-    if (address >= page->address && address < page->address + PAGE_SIZE)
+    if (address >= page->address && address < (uint64_t)page->address + PAGE_SIZE)
     {
       return page->debug_line[address-page->address];
     }
@@ -246,7 +246,7 @@ void Memory::write_debug(uint32_t address, int line)
 
   while (page != nullptr)
   {
-    if (address >= page->address && address < page->address + PAGE_SIZE)
+    if (address >= page->address && address < (uint64_t)page->address + PAGE_SIZE)
     {
       break;
     }
@@ -273,7 +273,7 @@ void Memory::write(uint32_t address, uint8_t data, int line)
 
   while (page != nullptr)
   {
-    if (address >= page->address && address < page->address + PAGE_SIZE)
+    if (address >= page->address && address < (uint64_t)page->address + PAGE_SIZE)
     {
       break;
     }
